@@ -52,6 +52,18 @@ impl Storage {
             return Ok(installation.clone());
         }
 
+        // The name is joined onto the base path: it has to be a relative path
+        // of plain names, otherwise (absolute path, `.`/`..` component, empty)
+        // the installation would live outside the storage directory.
+        let mut components = std::path::Path::new(name).components().peekable();
+        if components.peek().is_none()
+            || !components.all(|c| matches!(c, std::path::Component::Normal(_)))
+        {
+            return Err(crate::StorageError::Config(format!(
+                "invalid installation name {name:?}: must be a relative path of plain names"
+            )));
+        }
+
         let installation_path = self.base_path.join(name);
         let installation = Arc::new(Installation::open(installation_path)?);
 
